@@ -13,6 +13,7 @@ from .commons import (
     dump_xml_meta_odm,
     DATE_FMT_DEFAULT,
     xml2dict,
+    as_list,
     decode_unit,
     Field,
     get_format,
@@ -197,7 +198,7 @@ def _loads_xml(string):
 
             ephem = []
             orbit_mapping = {}
-            for statevector in data_tag["stateVector"]:
+            for statevector in as_list(data_tag["stateVector"]):
                 orb = StateVector(
                     [
                         decode_unit(statevector, "X", "km"),
@@ -216,7 +217,7 @@ def _loads_xml(string):
                 ephem.append(orb)
                 orbit_mapping[orb.date] = orb
 
-            for cov in data_tag.get("covarianceMatrix", []):
+            for cov in as_list(data_tag.get("covarianceMatrix")):
                 date = parse_date(cov["EPOCH"].text, metadata["TIME_SYSTEM"].text)
                 if date in orbit_mapping:
                     orb = orbit_mapping[date]
